@@ -32,6 +32,22 @@ Theorem C03_merge_attributes :
 Proof. exact merge_attributes_spec. Qed.
 Print Assumptions C03_merge_attributes.
 
+(* readable consequences of the specification: every name occurs once, at the position of its first
+   mention ... *)
+Theorem C03_merge_first_position :
+  forall (rev_attrs : bool) (attrs : list aattr),
+    anames (merge_spec rev_attrs [] attrs) = first_names [] attrs /\ NoDup (anames (merge_spec rev_attrs [] attrs)).
+Proof. exact merge_first_position. Qed.
+Print Assumptions C03_merge_first_position.
+
+(* ... and class mentions made of plain words are joined by single spaces in the order written *)
+Theorem C03_class_joined_by_spaces :
+  forall (ws : list str) (w0 : str),
+    w0 <> [] ->
+    join_class (Some [VStr w0]) (map word_attr ws) = Some [VStr (join [c_space] (w0 :: ws))].
+Proof. exact join_class_words. Qed.
+Print Assumptions C03_class_joined_by_spaces.
+
 (* output: the decision table of push_attribute, for ALL names, values, flags and options:
    no name -> nothing; a value -> ` name=` + quote + value + quote with the configured quote, braces for
    expressions (and for a markup.valuePrefix value under jsx); empty value and boolean (flag `name.` or
